@@ -1,10 +1,12 @@
 package main
 
 import (
+	"bytes"
 	"crypto/md5"
 	"encoding/base64"
 	"errors"
 	"fmt"
+	"mime/multipart"
 	"net/http"
 	"strconv"
 	"strings"
@@ -275,6 +277,27 @@ func runC08(tier string, seed uint64) {
 				snapshot()
 				if r.Status == 200 {
 					s.Put(b, "obj", []byte("the previous object"), []KV{{"X-Amz-Meta-Keep", "me"}, {"Content-Type", "text/x-prev"}})
+				}
+			}
+			// the limit is the configured one on every upload path: browser-form uploads with metadata well over it
+			// (and well under the built-in default) are refused like PUTs, over the existing object and an absent key
+			for _, fk := range []string{"obj", "new"} {
+				for _, pad := range []int{400, 900, 1600} {
+					var buf bytes.Buffer
+					mw := multipart.NewWriter(&buf)
+					mw.WriteField("key", fk)
+					mw.WriteField("X-Amz-Meta-Pad", strings.Repeat("p", pad))
+					fw, _ := mw.CreateFormFile("file", "upload.bin")
+					fw.Write([]byte("form upload with too much metadata"))
+					mw.Close()
+					r := do(s.h, Req{Method: "POST", Path: "/" + b, Body: buf.Bytes(), Header: [][2]string{{"Content-Type", mw.FormDataContentType()}}})
+					msg := fmt.Sprintf("%s: browser-form upload of %q with %d bytes of metadata on a server whose metadata limit is 300 answers %d %s", kind, fk, pad, r.Status, errCode(r.Body))
+					if r.Status >= 400 && r.Status < 500 {
+						emit("c08", "GOOD", hs(msg))
+					} else {
+						emit("c08", "BAD", hs("S:upload-over-the-metadata-limit-accepted "+msg))
+					}
+					snapshot()
 				}
 			}
 			// part uploads
